@@ -8,8 +8,8 @@ Part "rooted" absolute names spelled from the root itself (the root, root + '2',
 Part "text"  Hypothesis: unicode names / segment lists with unusual characters and look-alike separators,
              more roots.
 
-Oracle: the call raises ValueError, or returns an absolute normalised string equal to the root directory or
-beginning with root + '/'.
+Oracle: the call raises ValueError, or returns a normalised path string (r == normpath(r)) that is the root
+directory or begins with root + '/'.
 """
 import itertools
 import os
@@ -79,19 +79,23 @@ def check_one(ctx, root, name, case):
         ctx.violation("other-exception", "path_join_safe(%r, %r) raised %s: %s" % (root, name, e.__class__.__name__, e), case)
         return "refused"
     ri = rootinfo(root)
-    if not isinstance(r, str):
+    try:
+        r = os.fsdecode(r)  # str, or a path-like object / bytes naming the path
+    except TypeError:
         ctx.violation("not-a-path", "path_join_safe(%r, %r) returned %r" % (root, name, r), case)
         return "ok"
+    norm = os.path.normpath(r)
+    if r != norm:
+        ctx.violation("not-normalized", "path_join_safe(%r, %r) returned %r, normalised form is %r" % (root, name, r, norm), case)
+    # where the returned path points (a relative result is resolved like a relative root: against the cwd)
+    target = norm if os.path.isabs(norm) else os.path.abspath(norm)
     inside = False
     for d, p in zip(ri.dirs, ri.prefixes):
-        if r == d or r.startswith(p):
+        if target == d or target.startswith(p):
             inside = True
     if not inside:
         ctx.violation("escapes-root", "path_join_safe(%r, %r) returned %r, which is not %s and not below it"
                       % (root, name, r, " / ".join(repr(d) for d in ri.dirs)), case)
-    if r != os.path.normpath(r) or not os.path.isabs(r):
-        ctx.violation("not-normalized", "path_join_safe(%r, %r) returned %r, normalised form is %r"
-                      % (root, name, r, os.path.normpath(r)), case)
     return "ok"
 
 
